@@ -166,6 +166,8 @@ def run(ctx: Ctx) -> Result:
         # history: the same bytes were listed (as NOPs) before the fork was installed - afterwards they are listed with the fork's name
         nested_ = bytes([1, 43, 0, 2, code, 3])
         reqs.append(({**base, 'kind': FORK_KINDS[0], 'decompile_before_install': [bytes([code, 3]).hex(), nested_.hex()], 'compile': srcs_new, 'decompile': [bytes([code, 3]).hex()]}, FORK_KINDS[0]))
+        # history: Script objects built BEFORE the install (their source text says NOP<code>) are joined afterwards
+        reqs.append(({**base, 'kind': FORK_KINDS[0], 'script_objects_before_install': True, 'compile': srcs_new, 'decompile': [bytes([code, 3]).hex()]}, FORK_KINDS[0]))
         # history: parsing handlers had been registered for the same name before (a prototype): the install's own handlers replace them
         reqs.append(({**base, 'kind': FORK_KINDS[0], 'earlier_handlers': True, 'compile': srcs_new, 'decompile': [bytes([code, 3]).hex()]}, FORK_KINDS[0]))
         # history: an earlier fork at another byte had claimed the same aliases; after this install name and aliases reach THIS byte
@@ -211,6 +213,8 @@ def run(ctx: Ctx) -> Result:
             res.note_case(('forkasm', req['code'], src_new))
             if b_new != b_old or b_new.startswith('ERR'):
                 viol({'what': 'fork name / alias compiles to the NOP bytes', 'code': req['code'], 'source': src_new}, b_old, b_new)
+        if req.get('script_objects_before_install') and ans.get('script_add', '').startswith(('ERR', 'DIFFERENT')):
+            viol({'what': 'two Script objects built before the fork was installed, joined with + afterwards', 'code': req['code'], 'sources': ['true true', f"NOP{req['code']} d2 true"]}, 'the concatenation of their bytes', ans.get('script_add'))
         if ans['decompile'] and ans['decompile'][0] != [f"{req['name']} d3"]:
             viol({'what': 'decompile with fork installed', 'code': req['code']}, str([f"{req['name']} d3"]), str(ans['decompile'][0]))
     res.stats['fork_cases_authorized_with_fork'] = fork_true
